@@ -345,7 +345,7 @@ pub fn run(ctx: &mut Ctx) -> ShardResult {
                     }
                 }
             }
-            if idx % 37 == 0 {
+            if cr.res.samples.is_empty() || idx % 37 == 0 {
                 cr.res.sample(|| json!({"history": h, "template": hist.template, "crash": what}));
             }
         }
